@@ -456,3 +456,111 @@ def c_stmt(s):
 
 def c_prog(prog):
   return c_list(c_stmt(s) for s in prog)
+
+
+# ---------------------------------------------------------------------------------------
+# canonical type strings (both sides are brought to this form before comparing)
+#   ty := ('base', name) | ('any',) | ('nothing',) | ('gen', name, (ty..)) | ('tuple', (ty..)) | ('homtuple', ty)
+#       | ('union', frozenset(ty))
+
+def parse_type_expr(node):
+  """ast of a printed pytd type -> ty"""
+  if isinstance(node, ast.Constant):
+    if node.value is None:
+      return ("base", "None")
+    if node.value is Ellipsis:
+      return ("ellipsis",)
+    if isinstance(node.value, str):
+      return parse_type_expr(ast.parse(node.value, mode="eval").body)
+    raise ValueError(ast.dump(node))
+  if isinstance(node, ast.Name):
+    if node.id == "Any":
+      return ("any",)
+    if node.id == "nothing":
+      return ("nothing",)
+    if node.id == "NoneType":
+      return ("base", "None")
+    return ("base", node.id)
+  if isinstance(node, ast.Attribute):
+    return ("base", ast.unparse(node))
+  if isinstance(node, ast.BinOp) and isinstance(node.op, ast.BitOr):
+    return mk_union([parse_type_expr(node.left), parse_type_expr(node.right)])
+  if isinstance(node, ast.Subscript):
+    head = ast.unparse(node.value)
+    sl = node.slice
+    args = list(sl.elts) if isinstance(sl, ast.Tuple) else [sl]
+    if head in ("Optional", "typing.Optional"):
+      return mk_union([parse_type_expr(args[0]), ("base", "None")])
+    if head in ("Union", "typing.Union"):
+      return mk_union([parse_type_expr(a) for a in args])
+    if head in ("tuple", "Tuple", "typing.Tuple"):
+      if isinstance(sl, ast.Tuple) and not sl.elts:
+        return ("tuple", ())
+      ps = [parse_type_expr(a) for a in args]
+      if len(ps) == 2 and ps[1] == ("ellipsis",):
+        return ("homtuple", ps[0])
+      return ("tuple", tuple(ps))
+    if head in ("Callable", "typing.Callable"):
+      a0 = args[0]
+      if isinstance(a0, ast.List):
+        ps = ("params", tuple(parse_type_expr(x) for x in a0.elts))
+      else:
+        ps = parse_type_expr(a0)
+      return ("callable", ps, parse_type_expr(args[1]))
+    return ("gen", head, tuple(parse_type_expr(a) for a in args))
+  if isinstance(node, ast.List):
+    return ("params", tuple(parse_type_expr(x) for x in node.elts))
+  raise ValueError(ast.dump(node))
+
+
+def mk_union(ts):
+  out = set()
+  for t in ts:
+    if t[0] == "union":
+      out |= set(t[1])
+    elif t[0] != "nothing":
+      out.add(t)
+  if ("any",) in out:
+    return ("any",)
+  if not out:
+    return ("nothing",)
+  if len(out) == 1:
+    return next(iter(out))
+  return ("union", frozenset(out))
+
+
+def show_ty(t):
+  k = t[0]
+  if k == "base":
+    return t[1]
+  if k == "any":
+    return "Any"
+  if k == "nothing":
+    return "nothing"
+  if k == "gen":
+    return t[1] + "[" + ", ".join(show_ty(x) for x in t[2]) + "]"
+  if k == "tuple":
+    return "tuple[" + (", ".join(show_ty(x) for x in t[1]) if t[1] else "()") + "]"
+  if k == "homtuple":
+    return "tuple[" + show_ty(t[1]) + ", ...]"
+  if k == "union":
+    return "Union[" + ", ".join(sorted(show_ty(x) for x in t[1])) + "]"
+  if k == "callable":
+    return "Callable[" + show_ty(t[1]) + ", " + show_ty(t[2]) + "]"
+  if k == "params":
+    return "[" + ", ".join(show_ty(x) for x in t[1]) + "]"
+  if k == "ellipsis":
+    return "..."
+  raise ValueError(t)
+
+
+def parse_pyi_constants(pyi):
+  """{name: ty} for the `name: type` lines of a stub; (functions are returned separately as name -> return ty)."""
+  consts, funcs = {}, {}
+  tree = ast.parse(pyi)
+  for node in tree.body:
+    if isinstance(node, ast.AnnAssign) and isinstance(node.target, ast.Name):
+      consts[node.target.id] = parse_type_expr(node.annotation)
+    elif isinstance(node, ast.FunctionDef):
+      funcs[node.name] = parse_type_expr(node.returns) if node.returns is not None else ("any",)
+  return consts, funcs
